@@ -122,6 +122,34 @@ MUTANTS = [
      "            new_substitutions[new_k] = new_v\n            if new_k.type.is_compatible(new_v.type):\n                pass", "Substituter.substitute"),
     ("C13", "unified_planning/model/walkers/identitydag.py",
      "        return self.manager.LE(args[0], args[1])", "        return self.manager.LE(args[1], args[0])", "walk_le"),
+    ("C01", "unified_planning/engines/sequential_simulator.py",
+     "                    elif not old_value.bool_constant_value():\n                        return fluent, new_value",
+     "                    elif old_value.bool_constant_value():\n                        return fluent, new_value", "_evaluate_effect"),
+    ("C01", "unified_planning/engines/sequential_simulator.py",
+     "                f_eval = updated_values.get(fluent, evaluate(fluent))", "                f_eval = evaluate(fluent)", "_evaluate_effect"),
+    ("C01", "unified_planning/engines/sequential_simulator.py",
+     "                if fluent in assigned_fluent:\n                    raise UPConflictingEffectsException(\n                        f\"The fluent {fluent} is modified by an assignment and an increase/decrease in the same action.\"\n                    )\n",
+     "", "_evaluate_effect"),
+    ("C01", "unified_planning/engines/sequential_simulator.py",
+     "            if effect.is_assignment():\n                old_value = updated_values.get(fluent, None)",
+     "            if effect.is_assignment():\n                assigned_fluent.add(fluent)\n                old_value = updated_values.get(fluent, None)", "_evaluate_effect"),
+    ("C01", "unified_planning/engines/sequential_simulator.py",
+     "                    if not fluent.type.is_bool_type():\n                        raise UPConflictingEffectsException(\n                            f\"The fluent {fluent} is modified by 2 different assignments in the same action.\"\n                        )\n                    # solve with add-after-delete logic\n                    elif",
+     "                    if False:\n                        pass\n                    elif", "rejections"),
+    ("C03", "unified_planning/engines/plan_validator.py",
+     "                next_state = simulator.apply_unsafe(trace[-1], ai)\n", "                next_state = simulator.apply_unsafe(trace[-1], ai)\n                trace.append(next_state)\n", "_validate"),
+    ("C03", "unified_planning/engines/plan_validator.py",
+     "            except UPConflictingEffectsException as e:\n                msg = f\"{str(i)}-th action instance {str(ai)} creates Conflicting Effects: {str(e)}\"\n", "", "_validate"),
+    ("C03", "unified_planning/engines/plan_validator.py",
+     "                        last_ai = plan.actions[-1] if plan.actions else None", "                        last_ai = plan.actions[-1]", "_validate"),
+    ("C03", "unified_planning/engines/plan_validator.py",
+     "            if not unsatisfied_goals:\n                metric_evaluations = None", "            if not unsatisfied_goals or len(plan.actions) == 0:\n                metric_evaluations = None", "_validate"),
+    ("C03", "unified_planning/engines/sequential_simulator.py",
+     "        return se.evaluate(action_cost, state).constant_value() + metric_value", "        return se.evaluate(action_cost, next_state).constant_value() + metric_value", "evaluate_quality_metric"),
+    ("C03", "unified_planning/engines/sequential_simulator.py",
+     "            if se.evaluate(goal, next_state).bool_constant_value():\n                total_gain += gain\n        return total_gain\n    else:\n        raise NotImplementedError(\n            f\"QualityMetric {quality_metric} not supported by the UPSequentialSimulator.\"\n        )\n\n\ndef evaluate_quality_metric_in_initial_state",
+     "            if se.evaluate(goal, next_state).bool_constant_value():\n                total_gain = gain\n        return total_gain\n    else:\n        raise NotImplementedError(\n            f\"QualityMetric {quality_metric} not supported by the UPSequentialSimulator.\"\n        )\n\n\ndef evaluate_quality_metric_in_initial_state",
+     "evaluate_quality_metric"),
     ("C11", "unified_planning/model/walkers/simplifier.py",
      "            return self.manager.Bool(not l)", "            return self.manager.Bool(l)", "walk_not"),
 ]
@@ -137,7 +165,8 @@ def run_units(prop, scratch):
         "out = []\n"
         "for u in m.UNITS:\n"
         "    r = run_unit(u)\n"
-        "    bad = [o['label'] for o in r['obligations'] if o['verdict'] != 'discharged']\n"
+        "    bad = [o['label'] for o in r['obligations'] if o['verdict'] == 'failed']\n"
+        "    if not bad and any(o['verdict'] != 'discharged' for o in r['obligations']): r['status'] = 'open-obligations'\n"
         "    out.append({'unit': r['unit'], 'status': r['status'], 'failed': bad[:3], 'error': r.get('error')})\n"
         "print('RESULT ' + json.dumps(out))\n"
     ) % (ROOT, scratch, prop.lower())
@@ -148,36 +177,35 @@ def run_units(prop, scratch):
     return [{"unit": "?", "status": "crash", "failed": [], "error": (p.stderr or p.stdout)[-400:]}]
 
 
+def _one_mutant(m):
+    prop, rel, old, new, unit_sub = m
+    scratch = tempfile.mkdtemp(prefix="verif_mut_")
+    try:
+        shutil.copytree(os.path.join(REPO, "unified_planning"), os.path.join(scratch, "unified_planning"),
+                        ignore=shutil.ignore_patterns("test", "__pycache__"))
+        path = os.path.join(scratch, rel)
+        src = open(path).read()
+        if old not in src:
+            return (prop, unit_sub, "ANCHOR-NOT-FOUND"), False
+        open(path, "w").write(src.replace(old, new, 1))
+        res = run_units(prop, scratch)
+        hit = [r for r in res if unit_sub in r["unit"] and (r["failed"] or r["status"] not in ("ok",))]
+        killed = any(r["failed"] for r in hit)
+        undecided = [r for r in hit if not r["failed"]]
+        verdict = "KILLED" if killed else ("UNDECIDED(" + (undecided[0]["error"] or undecided[0]["status"])[:60] + ")" if undecided else "SURVIVED")
+        return (prop, unit_sub, verdict + (": " + [r for r in hit if r["failed"]][0]["failed"][0][:70] if killed else "")), killed
+    finally:
+        shutil.rmtree(scratch, ignore_errors=True)
+
+
 def mutants(only=None):
-    ok = True
-    rows = []
-    for prop, rel, old, new, unit_sub in MUTANTS:
-        if old is None or (only and prop not in only):
-            continue
-        scratch = tempfile.mkdtemp(prefix="verif_mut_")
-        try:
-            shutil.copytree(os.path.join(REPO, "unified_planning"), os.path.join(scratch, "unified_planning"),
-                            ignore=shutil.ignore_patterns("test", "__pycache__"))
-            path = os.path.join(scratch, rel)
-            src = open(path).read()
-            if old not in src:
-                rows.append((prop, unit_sub, "ANCHOR-NOT-FOUND"))
-                ok = False
-                continue
-            open(path, "w").write(src.replace(old, new, 1))
-            res = run_units(prop, scratch)
-            hit = [r for r in res if unit_sub in r["unit"] and (r["failed"] or r["status"] not in ("ok",))]
-            killed = any(r["failed"] for r in hit)
-            undecided = [r for r in hit if not r["failed"]]
-            verdict = "KILLED" if killed else ("UNDECIDED(" + (undecided[0]["error"] or undecided[0]["status"])[:60] + ")" if undecided else "SURVIVED")
-            if not killed:
-                ok = False
-            rows.append((prop, unit_sub, verdict + (": " + hit[0]["failed"][0][:70] if killed else "")))
-        finally:
-            shutil.rmtree(scratch, ignore_errors=True)
-    for r in rows:
-        print("mutant %-4s %-34s %s" % r)
-    return ok
+    from concurrent.futures import ThreadPoolExecutor
+    todo = [m for m in MUTANTS if m[2] is not None and not (only and m[0] not in only)]
+    with ThreadPoolExecutor(max_workers=int(os.environ.get("SELFTEST_JOBS", "6"))) as ex:
+        results = list(ex.map(_one_mutant, todo))
+    for row, _ in results:
+        print("mutant %-4s %-34s %s" % row)
+    return all(k for _, k in results)
 
 
 # ----------------------------------------------------------------------------------------------------- engine differential
